@@ -31,6 +31,14 @@ CLAIMED = {
                 text="MCGuts.tla: get/set round trip, isolation and exactness of stream32_eq/stream64_eq are checked by TLC over all pairs of states at a scaled word size; the same calls on the real code "
                      "(boundary and random 64-bit values, single-bit differences in each of the 12 words, states built directly vs. via setters) are validated by TLC against TraceGuts.tla.",
                 note="Trusted: TLC, ChaChaFn.tla, sampled values at the real word size."),
+    "C12": dict(level="exploration", design="5/C12", technique="trace validation of every (backend, vector type, operation) against a TLA+ scalar-semantics specification (TLC as oracle)",
+                text="Every word-wise operation required by the Machine trait bounds is executed for all 10 vector types on SSE2, SSSE3, SSE4.1, AVX, AVX2 (forced through hook H1), the portable backend and the "
+                     "no-std compile-time arms; TLC compares each result with SimdOps.tla, which states the per-word scalar meaning. The (backend,type,op) set is exhaustive w.r.t. the trait bounds; operands are sampled.",
+                note="Trusted: TLC, SimdOps.tla as the meaning of the operation names, dispatch override as a stand-in for older CPUs, harness recording (canary)."),
+    "C13": dict(level="exploration", design="5/C13", technique="trace validation of data-movement operations against SimdOps.tla (TLC as oracle)",
+                text="Lanes, storage reinterpretation, insert/extract at all indices, transpose4, to_scalars and little-/big-endian byte I/O at offsets 0..15 are executed on every backend with byte-position "
+                     "operands and compared by TLC with SimdOps.tla (identity on the little-endian byte image, per-word byte reversal for big-endian I/O, lane transpose).",
+                note="Trusted: as C12."),
 }
 
 PENDING = {  # properties whose checks are not built yet in this tree (kept current as checks land)
